@@ -2,6 +2,7 @@ package varutil
 
 import (
 	"math/rand"
+	"sync"
 	"time"
 )
 
@@ -30,11 +31,15 @@ const (
 
 var (
 	src = rand.NewSource(time.Now().UnixNano())
+	// srcMU guards src (a rand.Source is not safe for concurrent use)
+	srcMU sync.Mutex
 )
 
 // RandString create new random string
 func RandString(n int, pool string) string {
 	b := make([]byte, n)
+	srcMU.Lock()
+	defer srcMU.Unlock()
 	// A src.Int63() generates 63 random bits, enough for letterIdxMax characters!
 	for i, cache, remain := n-1, src.Int63(), letterIdxMax; i >= 0; {
 		if remain == 0 {
